@@ -279,7 +279,8 @@ class MarkdownRenderer(BaseRenderer):
     def render_quote(
         self, token: block_token.Quote, max_line_length: int
     ) -> Iterable[str]:
-        max_child_line_length = max_line_length - 2 if max_line_length else None
+        # note: at least 1, because a budget of 0 would switch word wrapping off.
+        max_child_line_length = max(max_line_length - 2, 1) if max_line_length else None
         lines = self.blocks_to_lines(
             token.children, max_line_length=max_child_line_length
         )
@@ -321,8 +322,9 @@ class MarkdownRenderer(BaseRenderer):
         else:
             prepend = token.prepend
             indentation = token.indentation
+        # note: at least 1, because a budget of 0 would switch word wrapping off.
         max_child_line_length = (
-            max_line_length - prepend if max_line_length else None
+            max(max_line_length - prepend, 1) if max_line_length else None
         )
         lines = self.blocks_to_lines(
             token.children, max_line_length=max_child_line_length
